@@ -16,6 +16,7 @@ import (
 	"go/parser"
 	"go/token"
 	"os"
+	"os/exec"
 	"path/filepath"
 	"strconv"
 	"strings"
@@ -24,6 +25,17 @@ import (
 const shimPath = "berty.tech/go-ipfs-log/zvsync"
 const lruShimPath = "berty.tech/go-ipfs-log/zvlru"
 const atomicShimPath = "berty.tech/go-ipfs-log/zvatomic"
+
+// extPkgs are packages outside the module whose own synchronisation matters to the code under test when it uses
+// them: their source (as the module graph of the repository resolves it) is rewritten like the repository's own
+// files and added as a virtual package of the repository's module; imports of the original are routed there.
+var extPkgs = map[string]string{
+	"golang.org/x/sync/singleflight": "zvsingleflight",
+	"golang.org/x/sync/errgroup":     "zverrgroup",
+}
+
+// extDirs: the source directory of each resolved external package
+var extDirs = map[string]string{}
 
 func main() {
 	if len(os.Args) != 3 {
@@ -36,13 +48,20 @@ func main() {
 	}
 	replace := map[string]string{}
 	n := 0
+	for pkg := range extPkgs {
+		cmd := exec.Command("go", "list", "-f", "{{.Dir}}", pkg)
+		cmd.Dir = repo
+		if b, err := cmd.Output(); err == nil && strings.TrimSpace(string(b)) != "" {
+			extDirs[pkg] = strings.TrimSpace(string(b))
+		}
+	}
 	err := filepath.Walk(repo, func(p string, info os.FileInfo, err error) error {
 		if err != nil {
 			return err
 		}
 		rel, _ := filepath.Rel(repo, p)
 		if info.IsDir() {
-			if rel == "test" || rel == "example" || rel == ".git" || strings.HasPrefix(filepath.Base(p), ".") && rel != "." || rel == "zvsync" || rel == "zvlru" || rel == "zvatomic" {
+			if rel == "test" || rel == "example" || rel == ".git" || strings.HasPrefix(filepath.Base(p), ".") && rel != "." || rel == "zvsync" || rel == "zvlru" || rel == "zvatomic" || strings.HasPrefix(rel, "zvext") {
 				return filepath.SkipDir
 			}
 			return nil
@@ -88,6 +107,36 @@ func main() {
 	}
 	replace[filepath.Join(repo, "zvlru", "lru.go")] = filepath.Join(self, "engine", "zvlru", "lru.go")
 	replace[filepath.Join(repo, "zvatomic", "atomic.go")] = filepath.Join(self, "engine", "zvatomic", "atomic.go")
+	for pkg, dir := range extDirs {
+		ents, err := os.ReadDir(dir)
+		if err != nil {
+			fmt.Fprintln(os.Stderr, "instr:", err)
+			os.Exit(1)
+		}
+		for _, e := range ents {
+			if !strings.HasSuffix(e.Name(), ".go") || strings.HasSuffix(e.Name(), "_test.go") {
+				continue
+			}
+			src, err := os.ReadFile(filepath.Join(dir, e.Name()))
+			if err != nil {
+				fmt.Fprintln(os.Stderr, "instr:", err)
+				os.Exit(1)
+			}
+			res, changed, err := rewrite(e.Name(), src)
+			if err != nil {
+				fmt.Fprintln(os.Stderr, "instr:", pkg, err)
+				os.Exit(1)
+			}
+			if !changed {
+				res = src
+			}
+			dst := filepath.Join(out, extPkgs[pkg]+"__"+e.Name())
+			if err := os.WriteFile(dst, res, 0o644); err != nil {
+				panic(err)
+			}
+			replace[filepath.Join(repo, extPkgs[pkg], e.Name())] = dst
+		}
+	}
 	b, _ := json.MarshalIndent(map[string]interface{}{"Replace": replace}, "", " ")
 	if err := os.WriteFile(filepath.Join(out, "overlay.json"), b, 0o644); err != nil {
 		panic(err)
@@ -147,6 +196,15 @@ func rewrite(name string, src []byte) ([]byte, bool, error) {
 				local = "context"
 			}
 			ctxName = local
+		default:
+			if _, ok := extDirs[path]; ok {
+				if local == "" {
+					local = path[strings.LastIndex(path, "/")+1:]
+				}
+				im.Path.Value = strconv.Quote("berty.tech/go-ipfs-log/" + extPkgs[path])
+				im.Name = ast.NewIdent(local)
+				changed = true
+			}
 		}
 	}
 	_ = semName
@@ -336,7 +394,15 @@ func rewriteGo(f *ast.File, shim string, needShim, changed *bool) {
 		}
 		fun := call.Fun
 		// a method value / function expression must also be evaluated at spawn time
-		if _, isLit := fun.(*ast.FuncLit); !isLit {
+		builtin := false
+		if bi, ok := fun.(*ast.Ident); ok && bi.Obj == nil {
+			switch bi.Name {
+			case "panic", "print", "println", "close", "delete", "copy", "recover", "clear":
+				builtin = true // a builtin is not a value: `go panic(e)` keeps its callee
+			}
+		}
+		if _, isLit := fun.(*ast.FuncLit); builtin {
+		} else if !isLit {
 			counter++
 			id := ast.NewIdent(fmt.Sprintf("zvfn%d", counter))
 			names = append(names, id)
@@ -418,10 +484,115 @@ func rewriteGo(f *ast.File, shim string, needShim, changed *bool) {
 			},
 		}}
 	}
+	// mkSelect turns a select without a default case into
+	//   for d := false; !d; { d = true; select { case A: shim.ChanDone(); body; default: select { case B: ...; default: d = false; shim.ChanYield() } } }
+	// a blocked select becomes a visible wait, like a blocked send. `break` in a case body still leaves the select
+	// (and then the loop, d being true); a select whose case bodies hold an unlabelled `continue` of an enclosing loop
+	// is left alone (the continue would bind to the new loop).
+	mkSelect := func(sel *ast.SelectStmt) ast.Stmt {
+		counter++
+		d := fmt.Sprintf("zvsel%d", counter)
+		call := func(name string) ast.Stmt {
+			return &ast.ExprStmt{X: &ast.CallExpr{Fun: &ast.SelectorExpr{X: ast.NewIdent(shim), Sel: ast.NewIdent(name)}}}
+		}
+		// a select whose every case ends in a return (or panic) and holds no break is a terminating statement; the
+		// loop that replaces it is not, so an (unreachable) panic follows it to keep "missing return" away
+		terminating := true
+		for _, c := range sel.Body.List {
+			cc := c.(*ast.CommClause)
+			last := false
+			if len(cc.Body) > 0 {
+				switch l := cc.Body[len(cc.Body)-1].(type) {
+				case *ast.ReturnStmt:
+					last = true
+				case *ast.ExprStmt:
+					if ce, ok := l.X.(*ast.CallExpr); ok {
+						if fn, ok := ce.Fun.(*ast.Ident); ok && fn.Name == "panic" {
+							last = true
+						}
+					}
+				}
+			}
+			for _, st := range cc.Body {
+				ast.Inspect(st, func(n ast.Node) bool {
+					if b, ok := n.(*ast.BranchStmt); ok && b.Tok == token.BREAK {
+						last = false
+					}
+					return true
+				})
+			}
+			terminating = terminating && last
+		}
+		for _, c := range sel.Body.List {
+			cc := c.(*ast.CommClause)
+			cc.Body = append([]ast.Stmt{call("ChanDone")}, cc.Body...)
+		}
+		// one non-blocking select per case, nested in source order: Go picks among several ready cases at random,
+		// which would be nondeterminism the scheduler does not own; taking the first ready case in source order is one
+		// of the behaviours select allows (an under-approximation where several cases are ready at the same poll)
+		cases := sel.Body.List
+		var inner ast.Stmt
+		for i := len(cases) - 1; i >= 0; i-- {
+			def := &ast.CommClause{}
+			if inner == nil {
+				def.Body = []ast.Stmt{
+					&ast.AssignStmt{Lhs: []ast.Expr{ast.NewIdent(d)}, Tok: token.ASSIGN, Rhs: []ast.Expr{ast.NewIdent("false")}},
+					call("ChanYield"),
+				}
+			} else {
+				def.Body = []ast.Stmt{inner}
+			}
+			inner = &ast.SelectStmt{Body: &ast.BlockStmt{List: []ast.Stmt{cases[i], def}}}
+		}
+		sel = inner.(*ast.SelectStmt)
+		*needShim = true
+		*changed = true
+		loop := &ast.ForStmt{
+			Init: &ast.AssignStmt{Lhs: []ast.Expr{ast.NewIdent(d)}, Tok: token.DEFINE, Rhs: []ast.Expr{ast.NewIdent("false")}},
+			Cond: &ast.UnaryExpr{Op: token.NOT, X: ast.NewIdent(d)},
+			Body: &ast.BlockStmt{List: []ast.Stmt{
+				&ast.AssignStmt{Lhs: []ast.Expr{ast.NewIdent(d)}, Tok: token.ASSIGN, Rhs: []ast.Expr{ast.NewIdent("true")}},
+				sel,
+			}},
+		}
+		if terminating {
+			return &ast.BlockStmt{List: []ast.Stmt{loop, &ast.ExprStmt{X: &ast.CallExpr{Fun: ast.NewIdent("panic"), Args: []ast.Expr{&ast.BasicLit{Kind: token.STRING, Value: strconv.Quote("zvsync: past a terminating select")}}}}}}
+		}
+		return loop
+	}
+	blockingSelect := func(sel *ast.SelectStmt) bool {
+		if len(sel.Body.List) == 0 {
+			return false // select {} blocks forever by intent
+		}
+		ok := true
+		for _, c := range sel.Body.List {
+			cc := c.(*ast.CommClause)
+			if cc.Comm == nil {
+				return false
+			}
+			for _, st := range cc.Body {
+				ast.Inspect(st, func(n ast.Node) bool {
+					switch b := n.(type) {
+					case *ast.ForStmt, *ast.RangeStmt, *ast.FuncLit:
+						return false
+					case *ast.BranchStmt:
+						if b.Tok == token.CONTINUE && b.Label == nil {
+							ok = false
+						}
+					}
+					return true
+				})
+			}
+		}
+		return ok
+	}
 	walkBlock = func(list []ast.Stmt) []ast.Stmt {
 		for i, st := range list {
 			if g, ok := st.(*ast.GoStmt); ok {
 				list[i] = mk(g)
+			} else if sel, ok := st.(*ast.SelectStmt); ok && blockingSelect(sel) {
+				visit(sel)
+				list[i] = mkSelect(sel)
 			} else if snd, ok := st.(*ast.SendStmt); ok {
 				visit(snd.Value)
 				list[i] = mkSend(snd)
